@@ -231,6 +231,8 @@ ImplRefine(prof, seq, neighbour, fix) ==
             ELSE ImplRemoveOverlapping(prof, ImplMergeDomainList(prof, sorted, fix)))
 
 PermsOf(S) == {f \in [1..Cardinality(S) -> S] : \A i, j \in DOMAIN f : i # j => f[i] # f[j]}
+(* f(pi(input)) = f(input) for every permutation pi of the input *)
+PermInvariant(F(_), S) == \A p, q \in PermsOf(S) : F(p) = F(q)
 
 (***************************************************************************)
 (* Part 2 -- hmmer.remove_overlapping                                       *)
@@ -261,6 +263,8 @@ NoOverlapClauses(prof, limit, hits, out) ==
               THEN {"dropped_hit_justified"} ELSE {})
 
 Conflict(limit, a, b, must) == IF must THEN ConflictMust(limit, a, b) ELSE ConflictMay(limit, a, b)
+NoOverlapOK(prof, limit, hits, out) == NoOverlapClauses(prof, limit, hits, out) = {}
+
 RECURSIVE NoOvKernel(_, _, _, _, _)
 NoOvKernel(limit, seq, i, kept, must) ==
     IF i > Len(seq) THEN kept
@@ -339,6 +343,9 @@ MultipleClauses(hits, out, byid) ==
                           \/ \E i \in idx : out[i].sc # MaxOf({h.sc : h \in {x \in H : <<x.g, x.p>> = k}})
               THEN {"one_best_per_profile_per_gene"} ELSE {})
         \cup (IF ~SameBag(out, byid) THEN {"by_id_matches_results"} ELSE {})
+
+CompeteOK(groups, hits, out) == FilterClauses(groups, hits, out, out) = {}
+OneBestPerProfileOK(hits, out) == MultipleClauses(hits, out, out) = {}
 
 (* references: position-first total order on hits that differ in more than the profile *)
 CompKey(h) == <<0 - h.sc, h.s, h.e>>
